@@ -731,6 +731,80 @@ func genCase(r *gen.Rand, dir string, i int) *Case {
 	return rn.c
 }
 
+// sweep: one base history of inserts (with re-inserts of earlier keys) is run once for every position p and every
+// maintenance operation (cache clear, index flush, flush + cache clear, close/reopen) forced at p - the mergeset contract
+// "items are visible to a lookup only after a flush" against the key cache at every point of the history. Each run ends with
+// a flush and a listing of every measurement.
+func genSweeps(r *gen.Rand, base string, idx *int) []*Case {
+	type ins struct {
+		mst  string
+		tags [][2]string
+	}
+	g := &genState{r: r, byKey: map[string]*ser{}}
+	ms := []string{gen.Pick(r, msts)}
+	if r.Bool() {
+		ms = append(ms, gen.Pick(r, msts))
+	}
+	var hist []ins
+	n := r.Range(5, 8)
+	for k := 0; k < n; k++ {
+		if len(hist) > 0 && r.Chance(2, 5) { // re-insert an earlier key
+			hist = append(hist, hist[r.Intn(len(hist))])
+			continue
+		}
+		hist = append(hist, ins{gen.Pick(r, ms), g.genTags()})
+	}
+	var out []*Case
+	for p := 0; p <= len(hist); p++ {
+		for _, kind := range []string{"clear", "flush", "flushclear", "reopen"} {
+			dir := filepath.Join(base, fmt.Sprintf("s%d", *idx))
+			rn := newRunner(r.Fork(), dir, *idx, "sweep")
+			for k, h := range hist {
+				if k == p {
+					rn.maintenance(kind)
+				}
+				rn.doInsert(h.mst, h.tags)
+			}
+			if p == len(hist) {
+				rn.maintenance(kind)
+			}
+			rn.e.b.Flush()
+			rn.c.Ops = append(rn.c.Ops, Op{Op: "flush"})
+			seen := map[string]bool{}
+			for _, m := range ms {
+				if !seen[m] {
+					seen[m] = true
+					rn.doQuery(m, nil)
+					rn.doList(m)
+				}
+			}
+			must(rn.e.b.Close())
+			os.RemoveAll(dir)
+			out = append(out, rn.c)
+			*idx++
+		}
+	}
+	return out
+}
+
+func (rn *runner) maintenance(kind string) {
+	switch kind {
+	case "clear":
+		must(rn.e.b.ClearCache())
+		rn.c.Ops = append(rn.c.Ops, Op{Op: "clear"})
+	case "flush":
+		rn.e.b.Flush()
+		rn.c.Ops = append(rn.c.Ops, Op{Op: "flush"})
+	case "flushclear":
+		rn.e.b.Flush()
+		rn.c.Ops = append(rn.c.Ops, Op{Op: "flush"})
+		must(rn.e.b.ClearCache())
+		rn.c.Ops = append(rn.c.Ops, Op{Op: "clear"})
+	case "reopen":
+		rn.doReopen()
+	}
+}
+
 // corpus / replay: a case file gives ops without observations; they are re-run on the implementation
 func replayCase(in *Case, dir string, i int) *Case {
 	rn := newRunner(gen.New(1), dir, i, "corpus")
@@ -799,6 +873,18 @@ func main() {
 		}
 	}
 	r := gen.FromEnv(10)
+	if n > 0 {
+		nsweep := 2
+		if gen.Tier() != "quick" {
+			nsweep = 12
+		}
+		rs := gen.FromEnv(11)
+		for k := 0; k < nsweep; k++ {
+			for _, c := range genSweeps(rs.Fork(), base, &idx) {
+				gen.Emit(c)
+			}
+		}
+	}
 	for i := 0; i < n; i++ {
 		dir := filepath.Join(base, fmt.Sprintf("c%d", i))
 		c := genCase(r.Fork(), dir, idx)
